@@ -3,7 +3,7 @@ CONSTANT N = 4
 CONSTANT Dir = TRUE
 CONSTANT Iters = 2
 CONSTANT MaxAtt = 4
-CONSTANT Vals <- ValsA
+CONSTANT Vals <- ValsC
 CONSTANT NullModel = FALSE
 CONSTANT Gen = FALSE
 CONSTANT Frame <- Frame8
